@@ -19,7 +19,7 @@ type c13Case struct {
 }
 
 var c13Strings = []string{
-	"1.0", " 1", "1 ", "+1", "-0", "-1", "1e3", "1E3", "1e-3", "2e47483647", "1.", ".5", "0", "00", "01", "2147483647", "2147483648", "-2147483648", "-2147483649", "1.5", "-1.5", "+1.5", "1,5", "0.0", "1.00",
+	"1.0", " 1", "1 ", "+1", "-0", "-1", "1e3", "1E3", "1e-3", "2e47483647", "1.", ".5", "0", "00", "01", "2147483647", "2147483648", "-2147483648", "-2147483649", "4294967296", "4294967297", "9223372036854775807", "9223372036854775808", "18446744073709551617", "1.5", "-1.5", "+1.5", "1,5", "0.0", "1.00",
 	"T", "t", "yes", "Y", "TRUE", "True", "true", "false", "F", "no", "N", "2", "1.0.0", "tru",
 	"2020", "2020-13-01", "2020-02-30", "2020-02-29", "2021-02-29", "2020-1-1", "2020-01", "2020-01-01T", "2020-01-01T10", "2020-01-01T10:00", "2020-01-01T10:00:00", "2020-01-01T10:00:00.5", "2020-01-01T10:00:00.500", "2020-01-01T10:00:00Z", "2020-01-01T10:00:00+05:30", "2020-01-01T25:00:00", "2020-01-01 10:00:00", "@2020-01-01", "2020T",
 	"24:00", "10", "10:00", "10:00:00", "10:00:00.5", "10:00:00.500", "T10:00:00", "@T10:00:00", "10:60", "1:00", "10:00:00Z",
@@ -168,7 +168,7 @@ func c13Table(v Val, t string) string {
 				if fitsInt32(ratOf(strings.TrimPrefix(s, "+"))) {
 					return "yes"
 				}
-				return "" // out of range: empty expected but not in the table
+				return "no" // a whole number outside the 32-bit range is not an Integer: never a (wrapped) value
 			}
 			return "no"
 		case "Decimal":
